@@ -1,11 +1,15 @@
 use crate::engine::Property;
 
 pub mod c02;
+pub mod c05;
 pub mod c06;
+pub mod c13;
 
 pub fn all() -> Vec<&'static dyn Property> {
     vec![
         &c02::C02,
+        &c05::C05,
         &c06::C06,
+        &c13::C13,
     ]
 }
